@@ -25,9 +25,9 @@ def changepoints_strategy(draw, n):
 
 
 @st.composite
-def intervals_strategy(draw, n):
+def intervals_strategy(draw, n, kmax=6):
     """Disjoint, sorted, non-empty [a,b) inside [0,n]; adjacent / length-1 / touching ends are likely."""
-    k = D.weighted(draw, [(1, st.just(0)), (9, st.integers(1, min(6, n)))])
+    k = D.weighted(draw, [(1, st.just(0)), (9, st.integers(1, min(kmax, n)))]) if kmax <= 6 else draw(st.integers(kmax // 2, min(kmax, n)))
     cuts = sorted(draw(st.lists(st.integers(0, n), min_size=2 * k, max_size=2 * k)))
     out = []
     prev = 0
@@ -45,12 +45,17 @@ def intervals_strategy(draw, n):
 
 @st.composite
 def static_cases(draw, tier, kind):
-    n = draw(st.integers(1 if kind != "change" else 2, 30))
+    many = draw(st.integers(0, 14)) == 14  # occasionally a long series with very many events
+    n = draw(st.integers(150, 320)) if many else draw(st.integers(1 if kind != "change" else 2, 30))
     case = {"kind": kind, "n": n, "index": draw(D.index_spec())}
     if kind == "change":
-        case["changepoints"] = draw(changepoints_strategy(n))
+        if many:
+            k = draw(st.integers(70, 140))
+            case["changepoints"] = sorted(draw(st.lists(st.integers(1, n - 1), min_size=k, max_size=k, unique=True)))
+        else:
+            case["changepoints"] = draw(changepoints_strategy(n))
     else:
-        case["intervals"] = draw(intervals_strategy(n))
+        case["intervals"] = draw(intervals_strategy(n, 130 if many else 6))
     if kind == "subset":
         p = draw(st.integers(1, 4))
         case["p"] = p
@@ -157,6 +162,8 @@ def check_static(case):
             classes.append("touches_end")
     if not events:
         classes.append("no_event")
+    if len(events) > 64:
+        classes.append("more_than_64_events")
     return {"nontrivial": bool(events) and case["index"]["kind"] != "range0", "classes": classes}
 
 
@@ -172,7 +179,9 @@ def detector_cases(draw, tier, det):
     bw = params.get("bandwidth", params.get("min_segment_length", 1))
     X, _ = draw(D.structured_matrix(n, p, boundary_positions=(0, bw, n - bw, n - 1)))
     return {"detector": det, "params": params, "X": X, "index": draw(D.index_spec()),
-            "columns": draw(st.sampled_from(["default", "strings"]))}
+            "columns": draw(st.sampled_from(["default", "strings"])),
+            # predict(X), then update with a long continuation (penalties / thresholds change), then transform(X)
+            "update_between": draw(st.sampled_from([False, False, True]))}
 
 
 def check_detector(case):
@@ -187,7 +196,16 @@ def check_detector(case):
     with sut(f"{det_name}.fit/predict/transform"):
         det.fit(df)
         y = det.predict(df)
-        dense = det.transform(df)
+        if case.get("update_between"):
+            # the same object keeps being used: transform(X) must label according to predict(X) *now*
+            reps = 1 if det_name == "CircularBinarySegmentation" else 6
+            more = pd.DataFrame(np.vstack([X[::-1] * 0.5, X] * reps), columns=df.columns,
+                                index=D.build_index(case["index"], n * (2 * reps + 1))[n:])
+            det.update(more)
+            dense = det.transform(df)
+            y = det.predict(df)
+        else:
+            dense = det.transform(df)
     check_index_equal(dense, index, f"{det_name}.transform")
     kind, events = K.sparse_events(y)
     if kind == "changepoints":
@@ -224,6 +242,8 @@ def check_detector(case):
     classes = [f"index={case['index']['kind']}"]
     if events:
         classes.append("has_event")
+    if case.get("update_between"):
+        classes.append("update_between_predict_and_transform")
     return {"nontrivial": bool(events) and case["index"]["kind"] != "range0", "classes": classes}
 
 
